@@ -698,16 +698,22 @@ def _register_capabilities_hooks(converter: cattrs.Converter) -> cattrs.Converte
         assert isinstance(object_, list)
         if len(object_) == 0:
             return []
-        if "deprecated" in object_[0]:
+        # The list is either all `SymbolInformation` or all `WorkspaceSymbol`, so one
+        # distinguishing item anywhere in the list decides: only `SymbolInformation`
+        # has `deprecated`; only a `WorkspaceSymbol` can carry `data` or a location
+        # without `range`. A list without any is read as `SymbolInformation`, which
+        # declares every other property of both.
+        if any("deprecated" in item for item in object_):
             return [
                 converter.structure(item, lsp_types.SymbolInformation)
                 for item in object_
             ]
-        elif ("data" in object_[0]) or ("range" not in object_[0]["location"]):
+        if any(
+            ("data" in item) or ("range" not in item["location"]) for item in object_
+        ):
             return [
                 converter.structure(item, lsp_types.WorkspaceSymbol) for item in object_
             ]
-
         return [
             converter.structure(item, lsp_types.SymbolInformation) for item in object_
         ]
